@@ -1380,9 +1380,11 @@ Proof.
   - intros a w' _ Hi' _. hsteps; try exact Logic.I.
     all: try (apply emits_at; apply add_file_conn).
     all: try (apply emit_ok_last; [gc_idx_delete | assumption | exact Logic.I]).
-    apply at_iterM with (J := fun _ => True); [intros _; exact Logic.I | | intros; exact Logic.I].
-    intros f w'' _ _ _. hsteps; try exact Logic.I.
-    apply emits_at; apply add_file_conn.
+    (* the loops: the files below a directory on disk; the tracked paths below a directory that is gone *)
+    all: apply at_iterM with (J := fun _ => True); [intros _; exact Logic.I | | intros; exact Logic.I].
+    all: intros f w'' _ _ _; hsteps; try exact Logic.I.
+    all: try (apply emits_at; apply add_file_conn).
+    all: try (apply emit_ok_last; [gc_idx_delete | assumption | exact Logic.I]).
   - intros w' _ _. hsteps. exact Logic.I.
 Qed.
 
